@@ -36,6 +36,9 @@ FINDINGS = {
     "C13-unvalidated-op-value": "op values are spliced in unvalidated: SET x <- 0xc1 (or a value with a trailing byte / non-string map key) "
                                 "reports success and leaves a body that Parse rejects",
     "C13-nan-compares-equal": "cmpFloat64 returns 0 when an operand is NaN: the condition `f EQUAL NaN` (and `f EQUAL 1.0` on a NaN field) is met",
+    "C13-removeval-skips-containers": "applyRemoveVal skips every array element that is a map / array parsed from the stored body: on {\"t\":[[1]]}, "
+                                      "REMOVE_VAL t <- [1] reports success and removes nothing (the docs: `the first array element whose "
+                                      "msgpack-encoded bytes equal Value`); the same value IS removed when it was appended earlier in the same patch",
     "C13-prealloc-untrusted-count": "parseMap / parseArray / extractTopLevelFields and the msgpack library's generic decoder size an allocation by a "
                                     "declared 32-bit element count before reading a single element: the 5-byte MERGE value df ff ff ff ff makes the "
                                     "process ask for 160 GB and die with `fatal error: runtime: out of memory` (not recoverable)",
@@ -206,6 +209,29 @@ def _num(raw):
     return None, None, None
 
 
+def _hdr(n, fix, c16, c32, lim):
+    if n < lim:
+        return bytes([fix | n])
+    if n < 65536:
+        return bytes([c16]) + n.to_bytes(2, "big")
+    return bytes([c32]) + n.to_bytes(4, "big")
+
+
+def _enc(t):
+    """encoding of a generic tree with the smallest container / key headers; leaves verbatim"""
+    if t[0] == "L":
+        return t[1]
+    if t[0] == "A":
+        return _hdr(len(t[1]), 0x90, 0xdc, 0xdd, 16) + b"".join(_enc(x) for x in t[1])
+    out = _hdr(len(t[1]), 0x80, 0xde, 0xdf, 16)
+    for k, v in t[1]:
+        n = len(k)
+        kh = bytes([0xa0 | n]) if n < 32 else (b"\xd9" + bytes([n]) if n < 256 else
+                                               (b"\xda" + n.to_bytes(2, "big") if n < 65536 else b"\xdb" + n.to_bytes(4, "big")))
+        out += kh + k + _enc(v)
+    return out
+
+
 def _chain(keys, inner):
     for k in reversed(keys):
         inner = ("M", [(k, inner)])
@@ -356,9 +382,15 @@ def ref_op(t, kind, path, val):
                 tgt = get(hit[1])
                 if tgt[0] != "A":
                     raise RefErr("type")
+                # "the first array element whose msgpack-encoded bytes equal Value": scalars by their exact
+                # bytes, containers by their encoding with the smallest headers (what a re-encode gives)
+                try:
+                    want = _enc(dec_all(val))
+                except Malformed:
+                    want = bytes(val)
                 xs = list(tgt[1])
                 for i, x in enumerate(xs):
-                    if x[0] == "L" and x[1] == bytes(val):
+                    if _enc(x) == want:
                         del xs[i]
                         break
                 put(hit[1], ("A", xs))
@@ -546,6 +578,15 @@ def _first_diff(x, y, path=""):
     return None
 
 
+def rmval_container(ops):
+    """does the op list contain a REMOVE_VAL whose value is a map / array encoding?"""
+    for k, _, v in ops:
+        b = unhex(v)
+        if k == "rmval" and b and (0x80 <= b[0] <= 0x9f or b[0] in (0xdc, 0xdd, 0xde, 0xdf)):
+            return True
+    return False
+
+
 def value_malformed(ops):
     """does the op list splice a value that is not exactly one well-formed, string-keyed value?"""
     for k, _, v in ops:
@@ -600,7 +641,8 @@ def oracle_line(op, rep):
             except Skip:
                 return None
             except RefErr as e:
-                return (None, "reported success, but the documented semantics reject the op list (%s)" % e)
+                fid = "C13-removeval-skips-containers" if rmval_container(ops) else None
+                return (fid, "reported success, but the documented semantics reject the op list (%s)" % e)
             except Malformed:
                 return (None, "reported success on a body / with an output the reference decoder rejects")
             if canon:
@@ -613,7 +655,8 @@ def oracle_line(op, rep):
                             "rule gives %s (code %02x)" % (d[0].lstrip("."), d[1][1].hex(), d[1][1][0], d[2][1].hex(), d[2][1][0]))
                 where = " (first difference at `%s`: got %s, expected %s)" % (
                     d[0].lstrip("."), d[1][1].hex() if d[1][0] in ("L", "K") else d[1], d[2][1].hex() if d[2][0] in ("L", "K") else d[2]) if d else ""
-                return (None, "output %s does not decode to the document the documented semantics give%s" % (f[1], where))
+                fid = "C13-removeval-skips-containers" if rmval_container(ops) else None
+                return (fid, "output %s does not decode to the document the documented semantics give%s" % (f[1], where))
         elif rep == "err cond" and cond is not None:
             # failure with CONDITION_NOT_MET ⇒ the reference agrees that it is not met
             try:
@@ -690,7 +733,7 @@ def run(ctx):
         magic = "%02x%02x" % (int(facts.get("magic0", "0") or 0), int(facts.get("magic1", "0") or 0)) \
             if facts.get("magic0", "unknown") != "unknown" and facts.get("magic1", "unknown") != "unknown" else "unknown"
         args = ["validatesValues=" + facts.get("validatesValues", "unknown"), "nanCompare=" + facts.get("nanCompare", "unknown"),
-                "magic=" + magic]
+                "magic=" + magic, "removeValCompare=" + facts.get("removeValCompare", "unknown")]
         c = K.correspondence(ctx, "C13", args, hx_env={"HYDRAIDE_LOG_LEVEL": "error"})
         corrs.append(("C13", args, c))
     else:
